@@ -361,7 +361,6 @@ func runOneBenign(p *Property, dir, pf string, old map[string]bool) SeedResult {
 	return out[0]
 }
 
-
 // documentedMiss: seeded changes that no rule reports, with the reason (seeded/KNOWN_MISSES.json, DESIGN.md §9).
 func documentedMiss(verif, name string) string {
 	b, err := os.ReadFile(filepath.Join(verif, "seeded", "KNOWN_MISSES.json"))
